@@ -315,6 +315,13 @@ def h_files(ctx, d, F, topos):
             okr = arr.shape[0] == N and all(int(arr[i, 0]) == len(nb[f][i]) - 2 and [int(x) for x in arr[i, 1:1 + int(arr[i, 0])]] == [int(x) - 1 for x in nb[f][i][2:]]
                                            for i in range(N))
             ctx.oblige(f"frame {f}: read_neighbors returns the written list", okr)
+    # ... also when asked for fewer neighbours than some particle has (rows truncated to the first Nmax entries)
+    with open(out + ".neighbor.dat") as fh:
+        for f in range(F):
+            arr = rn.read_neighbors(fh, N, 1)
+            okt = arr.shape == (N, 2) and all(int(arr[i, 0]) == min(1, len(nb[f][i]) - 2) and
+                                              (len(nb[f][i]) == 2 or int(arr[i, 1]) == int(nb[f][i][2]) - 1) for i in range(N))
+            ctx.oblige(f"frame {f}: read_neighbors with Nmax=1 returns the first listed neighbour", okt)
 
 
 def cfg_files(tier, seed):
